@@ -12,8 +12,8 @@ PROP = {
         "harness": "c14",
         "header": "From Coq Require Import List String ZArith.\nFrom Exo Require Import Base.Util C14.Model.\nImport ListNotations.",
         "case_type": "case",
-        "checks": {"corr": "check_case", "pred": "pred_case", "conj": "conj_case", "monitor": "monitor_case", "monitor_mem": "monitor_mem"},
-        "kinds": {"corr": "corr", "pred": "corr", "conj": "corr", "monitor": "monitor", "monitor_mem": "monitor"},
+        "checks": {"corr": "check_case", "pred": "pred_case", "conj": "conj_case", "thm": "thm_case", "monitor": "monitor_case", "monitor_mem": "monitor_mem"},
+        "kinds": {"corr": "corr", "pred": "corr", "conj": "corr", "thm": "corr", "monitor": "monitor", "monitor_mem": "monitor"},
         "n_quick": 320,
         "n_thorough": 3000,
     }],
@@ -25,7 +25,7 @@ PROP = {
              "dropped (verif hook) and blocks r+1.. are re-executed: the restarted twin. One extra twin per history is restarted three times. "
              "8 directed histories come first: two reproducing the remaining known findings (finalized round reopened; reverted params update) and six regression scenarios of repaired defects (untagged). distinct = distinct sha1 of the Coq case; all cases count as non-trivial "
              "(every case re-executes at least one block on a rebuilt aggregator)"),
-    "explanation": ("Coq theorems about an executable model of the oracle's in-memory state, of what EndBlock persists and of "
+    "explanation": ("Main theorem C14_restart_safe_iff: for all never-stopped histories over valid params, a block boundary (outside the narrow 'band' of feeders that just left their window with items still in the replay window) is restart-safe iff every round still inside its window is open or older than the last validator-set change; observational corollary C14_restart_safe; refutation C14_restart_refuted_final for the remaining defect class. Coq theorems about an executable model of the oracle's in-memory state, of what EndBlock persists and of "
                     "recacheAggregatorContext, for all histories; the model is tied to the code by differential execution (codes, store "
                     "projection and live memory after every block, and recache(model store) vs the memory the restarted implementation "
                     "rebuilt). The property itself (restarted twin == never-stopped run: result codes, prices/round ids, whole oracle store "
